@@ -482,6 +482,35 @@ Theorem C04_read_line_refines_bufio : forall n, 2 <= n -> forall s,
 Proof. exact read_line_refines_bufio. Qed.
 Print Assumptions C04_read_line_refines_bufio.
 
+(* Several exchanges on ONE connection (Model/H1Conn.v conn_exchanges; the carried state is the
+   connection's read buffer).  With readLoop's decision the buffer is empty whenever the
+   connection goes back to the idle pool, so every request served by the connection is answered
+   exactly as a fresh connection would answer it from ITS OWN segment: nothing the server sent
+   in or behind the answer to one request is ever attributed to another request. *)
+Theorem C04_conn_exchanges_independent : forall reqs,
+  conn_exchanges reuse_real [] reqs = serve_independently reqs.
+Proof. exact conn_exchanges_independent. Qed.
+Print Assumptions C04_conn_exchanges_independent.
+
+Theorem C04_answer_depends_on_own_segment_only : forall reqs i a m seg,
+  nth_error (conn_exchanges reuse_real [] reqs) i = Some a ->
+  nth_error reqs i = Some (m, seg) ->
+  a = exchange m [] seg.
+Proof. exact answer_depends_on_own_segment_only. Qed.
+Print Assumptions C04_answer_depends_on_own_segment_only.
+
+(* ... whereas without the buffer test (pinned fork; seeded change c-m1 for bodiless responses)
+   the bytes behind a 204 are handed to the next request *)
+Theorem C04_reuse_without_buffer_check_refuted :
+  map (option_map (fun rb => b_data (snd rb))) (conn_exchanges reuse_without_buffer_check [] splice_demo)
+    = [Some []; Some (bs "STOLEN")] /\
+  map (option_map (fun rb => b_data (snd rb))) (conn_exchanges reuse_real [] splice_demo)
+    = [Some []] /\
+  option_map (fun rb => b_data (snd rb)) (exchange (bs "GET") [] (snd (nth 1 splice_demo ([], []))))
+    = Some (bs "fresh").
+Proof. exact reuse_without_buffer_check_refuted. Qed.
+Print Assumptions C04_reuse_without_buffer_check_refuted.
+
 (* x read buffer sizes: an accepted status line + header block + transfer decision does not
    depend on the read-buffer size *)
 Theorem C04_accepted_head_bufsize_independent : forall meth b1 b2 s r rest,
